@@ -26,14 +26,14 @@ def _opinfo(op):
     return {k: v for k, v in op.items() if k not in ("variant",)}
 
 
-def h_wellformed(ctx, base, nsym=1, full=False):
+def h_wellformed(ctx, base, nsym=1, full=False, first_ops=None):
     """C14: after every call of the history (accepted or rejected) the tree is well-formed; an accepted call was
     acceptable by the documented rules."""
     hist.FULL[0] = full
     sysobj, m = hist.replay_base(hist.BASES[base])
     ctx.check("base-history-well-formed", cond(not hist.well_formed(sysobj)), info={"violated": hist.well_formed(sysobj)})
     for k in range(nsym):
-        op = hist.symbolic_call(ctx, m, "c%d" % k, EDIT_OPS)
+        op = hist.symbolic_call(ctx, m, "c%d" % k, (first_ops if (k == 0 and first_ops and nsym > 1) else EDIT_OPS))
         exc = _try(sysobj, op)
         bad = hist.well_formed(sysobj)
         outcome = "rejected" if exc is not None else "accepted"
@@ -151,7 +151,7 @@ META14 = {
                    "harness's own model of the documented rules.  NOTE (DESIGN 4/C14): the state is a graph in a Rust library plus dictionaries, so this is a "
                    "solver-driven exhaustive walk over the bounded argument space, not an inductive proof.",
     "functions": ["system.System.add_source/add_comp/change_comp/del_comp", "system.System._chk_parent/_chk_comp/_chk_name/_get_index"],
-    "bounds": "11 base histories x 1 symbolic call (quick) / 2 symbolic calls on 5 bases (thorough); name pool = all existing names + rails + 2 fresh; "
+    "bounds": "all base histories x 1 symbolic call (quick) / thorough: all pairs of symbolic calls on 2 small bases, (delete or replace) followed by any call on 3 larger bases; name pool = all existing names + rails + 2 fresh; "
               "12 kind classes; numeric parameters concrete",
     "outside": "longer histories; groups (carried, never validated by the API)",
     "assumptions": ["identifiers are only compared / used as keys (data independence)"],
@@ -171,7 +171,13 @@ def instances(tier):
         out.append(Instance("C14", "c14:h_wellformed", dict(base=b, nsym=1, full=(tier == "thorough")), name="H/%s/1" % b, cover=["accepted", "rejected"], max_paths=20000,
                             weight=10, time_limit=1500))
     if tier == "thorough":
-        for b in ("single", "chain", "mux", "after-delete", "by-rail"):
+        # two symbolic calls: every pair on the two small bases; on the larger ones the FIRST call is one of the structure-changing
+        # edits (delete / replace - the calls that create the states the rules have to cope with), the second call is arbitrary
+        # (all pairs on those bases exceed 400 000 paths / 1 h per base)
+        for b in ("single", "after-delete"):
             out.append(Instance("C14", "c14:h_wellformed", dict(base=b, nsym=2), name="H/%s/2" % b, cover=["accepted", "rejected"], max_paths=400000,
-                                weight=100, time_limit=12000))
+                                weight=100, time_limit=6000))
+        for b, firsts in (("mux", ["del_comp", "change_comp"]), ("by-rail", ["del_comp", "change_comp"]), ("chain", ["del_comp"]), ("chain", ["change_comp"])):
+            out.append(Instance("C14", "c14:h_wellformed", dict(base=b, nsym=2, first_ops=firsts), name="H/%s/%s+any" % (b, "|".join(firsts)),
+                                cover=["accepted", "rejected"], max_paths=600000, weight=100, time_limit=6000))
     return out, META14
